@@ -85,16 +85,71 @@ def _tuple_target(comp):
     return comp
 
 
+def _fuse_tuple_stream(comp):
+    """N26: a comprehension over a generator of tuple displays, `[f(g, *t) for t in ((a, b) for ..)]` or
+    `[f(a, b) for a, b in ((x, y) for ..)]`, is the comprehension over the inner source with the tuple's elements put where
+    they are used - when every element is effect-free (so moving its evaluation into the outer element changes nothing)."""
+    if not (isinstance(comp, (ast.ListComp, ast.GeneratorExp)) and len(comp.generators) == 1 and not comp.generators[0].ifs):
+        return comp
+    g = comp.generators[0]
+    inner = g.iter
+    if not (isinstance(inner, (ast.GeneratorExp, ast.ListComp)) and len(inner.generators) == 1 and isinstance(inner.elt, ast.Tuple)
+            and not any(isinstance(x, ast.Starred) for x in inner.elt.elts) and all(_effect_free(x) for x in inner.elt.elts)):
+        return comp
+    inner_bound = {x.id for x in ast.walk(inner.generators[0].target) if isinstance(x, ast.Name)}
+    outer_names = _names(comp.elt)
+    elts = inner.elt.elts
+    if isinstance(g.target, ast.Name):
+        t = g.target.id
+        uses = [x for x in ast.walk(comp.elt) if isinstance(x, ast.Name) and x.id == t]
+        starred = [x for x in ast.walk(comp.elt) if isinstance(x, ast.Starred) and isinstance(x.value, ast.Name) and x.value.id == t]
+        if len(uses) != 1 or len(starred) != 1 or (inner_bound & (outer_names - {t})):
+            return comp
+
+        class R(ast.NodeTransformer):
+            def visit_Call(self, c):
+                self.generic_visit(c)
+                new_args = []
+                for a in c.args:
+                    if a is starred[0]:
+                        new_args.extend(copy.deepcopy(e_) for e_ in elts)
+                    else:
+                        new_args.append(a)
+                c.args = new_args
+                return c
+        # (rewritten in place on the original element: the identity test above needs the original nodes)
+        new_elt = R().visit(comp.elt)
+    elif isinstance(g.target, ast.Tuple) and len(g.target.elts) == len(elts) and all(isinstance(x, ast.Name) for x in g.target.elts):
+        m = {x.id: e_ for x, e_ in zip(g.target.elts, elts)}
+        if inner_bound & (outer_names - set(m)):
+            return comp
+
+        class R2(ast.NodeTransformer):
+            def visit_Name(self, nn):
+                if nn.id in m and isinstance(nn.ctx, ast.Load):
+                    return copy.deepcopy(m[nn.id])
+                return nn
+        new_elt = R2().visit(comp.elt)
+    else:
+        return comp
+    new = type(comp)(elt=new_elt, generators=[copy.deepcopy(x) for x in inner.generators])
+    ast.copy_location(new, comp)
+    for x in ast.walk(new):
+        if not hasattr(x, "lineno") and isinstance(x, (ast.expr, ast.stmt)):
+            ast.copy_location(x, comp)
+    return new
+
+
 class _Expr(ast.NodeTransformer):
     """expression-level rewrites N3 N4 N5 N8 N12"""
 
     def visit_ListComp(self, n):
         self.generic_visit(n)
-        return ast.fix_missing_locations(_tuple_target(n))
+        return ast.fix_missing_locations(_fuse_tuple_stream(_tuple_target(n)))
 
     def visit_GeneratorExp(self, n):
         self.generic_visit(n)
-        return ast.fix_missing_locations(_tuple_target(n))
+        return ast.fix_missing_locations(_fuse_tuple_stream(_tuple_target(n)))
 
     def visit_Call(self, n: ast.Call):
         self.generic_visit(n)
@@ -962,6 +1017,54 @@ def _merge_extend_append_branches(fn: ast.FunctionDef) -> None:
             i += 1
 
 
+def _eval_prefix_ok_comp(stmt: ast.stmt, use: ast.Name) -> bool:
+    """like _eval_prefix_ok, but the use may also be the *iterable of the first generator* of a comprehension that the
+    statement evaluates unconditionally (that iterable is evaluated when the comprehension is, before anything in it)"""
+    if _eval_prefix_ok(stmt, use):
+        return True
+    for n in ast.walk(stmt):
+        if isinstance(n, (ast.ListComp, ast.GeneratorExp, ast.SetComp)) and n.generators and n.generators[0].iter is use:
+            # the comprehension's own position in the statement decides
+            return _eval_prefix_ok_node(stmt, n)
+    return False
+
+
+def _eval_prefix_ok_node(stmt: ast.stmt, node: ast.AST) -> bool:
+    """_eval_prefix_ok for an arbitrary expression node of the statement"""
+    path = []
+
+    def find(cur, trail):
+        if cur is node:
+            path.extend(trail + [cur])
+            return True
+        for ch in ast.iter_child_nodes(cur):
+            if find(ch, trail + [cur]):
+                return True
+        return False
+    if not find(stmt, []):
+        return False
+    for parent_, child in zip(path, path[1:]):
+        if isinstance(parent_, (ast.Lambda, ast.ListComp, ast.SetComp, ast.DictComp, ast.GeneratorExp, ast.NamedExpr, ast.Dict,
+                                ast.IfExp, ast.BoolOp, ast.Starred)):
+            return False
+        if isinstance(parent_, (ast.Assign, ast.AnnAssign)):
+            if child is not parent_.value:
+                return False
+            continue
+        if isinstance(parent_, (ast.Expr, ast.Return, ast.keyword)):
+            continue
+        if not isinstance(parent_, (ast.Call, ast.Attribute, ast.Subscript, ast.BinOp, ast.Tuple, ast.List)):
+            return False
+        for ch in ast.iter_child_nodes(parent_):
+            if ch is child:
+                break
+            if isinstance(ch, (ast.expr_context, ast.operator, ast.unaryop, ast.cmpop, ast.boolop)):
+                continue
+            if not _effect_free(ch):
+                return False
+    return True
+
+
 def _forward_substitute(fn: ast.FunctionDef) -> None:
     """N18: a local bound once to any expression and read exactly once, by the very next simple statement, at a point that
     statement reaches before anything with an effect, is substituted there (`snap = Population(..); hist.append(snap)` ->
@@ -991,6 +1094,91 @@ def _forward_substitute(fn: ast.FunctionDef) -> None:
                 elif isinstance(st, ast.AnnAssign) and isinstance(st.target, ast.Name) and st.value is not None:
                     tgt, val = st.target.id, st.value
                 single = stores.get(tgt, 0) == 1 and loads.get(tgt, 0) == 1
+                # N18c: a value created once and consumed once on each of two exclusive paths chosen by an effect-free test:
+                #   x = E; if c: <uses x first>; ..leave..   <uses x first>      (or if/else)
+                if tgt is not None and tgt not in params and stores.get(tgt, 0) == 1 and loads.get(tgt, 0) == 2 \
+                        and isinstance(nxt, ast.If) and _effect_free(nxt.test) and tgt not in _names(nxt.test) and nxt.body \
+                        and not isinstance(val, (ast.Lambda, ast.Yield, ast.YieldFrom, ast.Await, ast.NamedExpr, ast.Starred)) \
+                        and not any(isinstance(c_, (ast.Lambda, ast.FunctionDef)) and tgt in _names(c_) for c_ in ast.walk(fn) if c_ is not fn):
+                    first_a = nxt.body[0]
+                    if nxt.orelse:
+                        first_b, b_list, b_idx = nxt.orelse[0], nxt.orelse, 0
+                    elif _always_leaves(nxt.body) and i + 2 < len(stmts):
+                        first_b, b_list, b_idx = stmts[i + 2], stmts, i + 2
+                    else:
+                        first_b = None
+                    if first_b is not None:
+                        ua = [x for x in ast.walk(first_a) if isinstance(x, ast.Name) and x.id == tgt and isinstance(x.ctx, ast.Load)]
+                        ub = [x for x in ast.walk(first_b) if isinstance(x, ast.Name) and x.id == tgt and isinstance(x.ctx, ast.Load)]
+
+                        def _inner_first(stmt_):
+                            # the use may sit in the first statement of a with-block that opens the path (N18b's condition)
+                            return stmt_
+                        def _ok(stmt_, u_):
+                            if isinstance(stmt_, (ast.Expr, ast.Assign, ast.AugAssign, ast.Return)):
+                                return _eval_prefix_ok_comp(stmt_, u_)
+                            if isinstance(stmt_, ast.With) and stmt_.body and all(
+                                    isinstance(it_.context_expr, ast.Call) and isinstance(it_.context_expr.func, ast.Name)
+                                    and all(_arg_ok(a_) for a_ in it_.context_expr.args) and not it_.context_expr.keywords
+                                    and tgt not in _names(it_.context_expr) for it_ in stmt_.items):
+                                vr = _roots(val)
+                                for it_ in stmt_.items:
+                                    for a_ in it_.context_expr.args:
+                                        if any(r_ in vr or any(v_.startswith(r_ + ".") for v_ in vr) for r_ in _roots(a_) if r_ != "self"):
+                                            return False
+                                f0 = stmt_.body[0]
+                                return isinstance(f0, (ast.Expr, ast.Assign, ast.AugAssign, ast.Return)) and any(x is u_ for x in ast.walk(f0)) \
+                                    and _eval_prefix_ok_comp(f0, u_)
+                            return False
+                        if len(ua) == 1 and len(ub) == 1 and _ok(first_a, ua[0]) and _ok(first_b, ub[0]):
+                            targets_ = {id(ua[0]), id(ub[0])}
+
+                            class S3(ast.NodeTransformer):
+                                def visit_Name(self, nn):
+                                    if id(nn) in targets_:
+                                        return _loc(copy.deepcopy(val), nn)
+                                    return nn
+                            nxt.body[0] = S3().visit(first_a)
+                            b_list[b_idx] = S3().visit(first_b)
+                            del stmts[i]
+                            loads[tgt] = 0
+                            changed = True
+                            continue
+                # N18b: the next statement is `with f(<scalars>) as e:` whose context call cannot reach what `val` reads (a plain
+                # function given attribute values / names with other roots), and the single use is in the first statement of
+                # its body: substitute there
+                if tgt is not None and tgt not in params and single and isinstance(nxt, ast.With) and nxt.body and \
+                        not isinstance(val, (ast.Lambda, ast.Yield, ast.YieldFrom, ast.Await, ast.NamedExpr, ast.Starred)):
+                    vroots = _roots(val)
+                    ok_items = True
+                    for it_ in nxt.items:
+                        c_ = it_.context_expr
+                        if not (isinstance(c_, ast.Call) and isinstance(c_.func, ast.Name) and not c_.keywords
+                                and all(_arg_ok(a_) for a_ in c_.args)):
+                            ok_items = False
+                            break
+                        for a_ in c_.args:
+                            ar = _roots(a_)
+                            if "self" in {ast.unparse(a_)} or any(r_ in vroots or any(v_.startswith(r_ + ".") for v_ in vroots) for r_ in ar if r_ != "self"):
+                                ok_items = False
+                        if tgt in _names(c_):
+                            ok_items = False
+                    first = nxt.body[0]
+                    if ok_items and isinstance(first, (ast.Expr, ast.Assign, ast.AugAssign, ast.Return)):
+                        uses = [x for x in ast.walk(nxt) if isinstance(x, ast.Name) and x.id == tgt and isinstance(x.ctx, ast.Load)]
+                        if len(uses) == 1 and any(u_ is uses[0] for u_ in ast.walk(first)) and _eval_prefix_ok_comp(first, uses[0]):
+                            use = uses[0]
+
+                            class S2(ast.NodeTransformer):
+                                def visit_Name(self, nn):
+                                    if nn is use:
+                                        return _loc(copy.deepcopy(val), nn)
+                                    return nn
+                            nxt.body[0] = S2().visit(first)
+                            del stmts[i]
+                            loads[tgt] = 0
+                            changed = True
+                            continue
                 # `x = E; return x`: nothing can read x afterwards, whatever other bindings of x exist elsewhere
                 into_return = isinstance(nxt, ast.Return) and tgt is not None and not any(
                     isinstance(c_, (ast.Lambda, ast.FunctionDef)) and tgt in _names(c_) for c_ in ast.walk(fn) if c_ is not fn)
@@ -1038,6 +1226,13 @@ def _own_stmt_lists(fn):
     return out
 
 
+def _with_chain(body: list):
+    cur = body
+    while cur and isinstance(cur[-1], ast.With):
+        yield cur[-1]
+        cur = cur[-1].body
+
+
 def _splice_call(caller, stmts, i_, st, call, callee, is_method) -> bool:
     """N17: replace the statement `st` (an expression statement, a single-target assignment or a return whose value is the
     call) by the callee's body: arguments are bound to the parameters in evaluation order (substituted when they are plain
@@ -1053,12 +1248,21 @@ def _splice_call(caller, stmts, i_, st, call, callee, is_method) -> bool:
         return False
     inner = [x for s_ in body for x in ast.walk(s_)]
     if any(isinstance(x, (ast.Yield, ast.YieldFrom, ast.Await, ast.Nonlocal, ast.Global, ast.FunctionDef, ast.AsyncFunctionDef,
-                          ast.ClassDef, ast.Lambda, ast.Try, ast.With)) for x in inner):
+                          ast.ClassDef, ast.Lambda, ast.Try)) for x in inner):
         return False
     if any(isinstance(x, ast.Name) and x.id in ("super", "locals", "vars", "globals", "__class__") for x in inner):
         return False
     rets = [x for x in inner if isinstance(x, ast.Return)]
-    final_ret = body[-1] if isinstance(body[-1], ast.Return) else None
+    # the tail return: the last statement, possibly at the end of (nested) `with` blocks that end the body
+    tail_list = body
+    while tail_list and isinstance(tail_list[-1], ast.With):
+        tail_list = tail_list[-1].body
+    in_with = tail_list is not body
+    final_ret = tail_list[-1] if tail_list and isinstance(tail_list[-1], ast.Return) else None
+    if any(isinstance(x, ast.With) for x in inner) and not (in_with and all(r is final_ret for r in rets)
+                                                            and sum(1 for x in inner if isinstance(x, ast.With)) ==
+                                                            sum(1 for _ in _with_chain(body))):
+        return False            # `with` only as the chain that ends the body and holds the single return
     early = [r for r in rets if r is not final_ret]
     if early and not isinstance(st, ast.Return):
         return False
@@ -1132,6 +1336,21 @@ def _splice_call(caller, stmts, i_, st, call, callee, is_method) -> bool:
         new_body += [S().visit(copy.deepcopy(s_)) for s_ in body]
         if final_ret is None:
             new_body.append(_loc(ast.Return(value=ast.Constant(value=None)), st))
+    elif in_with and final_ret is not None:
+        copied = [S().visit(copy.deepcopy(s_)) for s_ in body]
+        cur = copied
+        while cur and isinstance(cur[-1], ast.With):
+            cur = cur[-1].body
+        r_ = cur[-1]
+        if r_.value is None:
+            repl = [_loc(ast.Assign(targets=st.targets, value=ast.Constant(value=None)), st)] if isinstance(st, ast.Assign) else []
+        elif isinstance(st, ast.Assign):
+            repl = [_loc(ast.Assign(targets=st.targets, value=r_.value), st)]
+        else:
+            repl = [_loc(ast.Expr(value=r_.value), st)]
+        cur[-1:] = repl or [ast.copy_location(ast.Pass(), st)]
+        new_body += copied
+        final_ret = None
     else:
         new_body += [S().visit(copy.deepcopy(s_)) for s_ in body if s_ is not final_ret]
         if final_ret is not None and final_ret.value is not None:
@@ -1143,7 +1362,13 @@ def _splice_call(caller, stmts, i_, st, call, callee, is_method) -> bool:
         elif isinstance(st, ast.Assign):
             new_body.append(_loc(ast.Assign(targets=st.targets, value=ast.Constant(value=None)), st))
     for nb in new_body:
-        ast.copy_location(nb, st)
+        # every spliced node takes the position of the call statement: positions from the callee's own lines would put the
+        # code "before" or "after" the caller's statements at random
+        for x in ast.walk(nb):
+            if isinstance(x, (ast.expr, ast.stmt, ast.arg, ast.keyword, ast.withitem, ast.comprehension, ast.excepthandler)) \
+                    and not isinstance(x, (ast.withitem, ast.comprehension)):
+                x.lineno, x.col_offset = st.lineno, st.col_offset
+                x.end_lineno, x.end_col_offset = getattr(st, "end_lineno", st.lineno), getattr(st, "end_col_offset", st.col_offset)
         ast.fix_missing_locations(nb)
     stmts[i_:i_ + 1] = new_body or [ast.copy_location(ast.Pass(), st)]
     return True
